@@ -295,9 +295,9 @@ theorem hlle_const_null (nb : Fin N → Fin k → Fin N) (sqrtO : K → K) (thr 
    neighbourhood of rank exactly `d`, `U i` the top-`d` eigenvectors of the centred local Gram matrix), with an exact
    square root and no vanishing Gram–Schmidt norm, the null space of `M` is EXACTLY `span{1, T·₁, …, T·_d}`.
    Proved here (`_partial`): the inclusion `⊇`, with the Gram–Schmidt contract `hgs` and the local-span condition `hflat`
-   as hypotheses.  `gramSchmidt_orthogonal` below derives the orthonormality part of the contract for the as-written
-   modified Gram–Schmidt; the span part (`H_i ⟂ 1, U_i` from orthonormality of the whole sweep, through `colsumNorm`) and
-   the reverse inclusion are not proved. -/
+   as hypotheses.  `gramSchmidt_orthogonal` below derives orthonormality and the prefix-span property of the as-written
+   modified Gram–Schmidt; the remaining plumbing from there to `hgs` (columns of `hlleYi0`, `colsumNorm` not firing,
+   `rightCols`) and the reverse inclusion are not proved. -/
 theorem hlle_affine_on_flat_partial (nb : Fin N → Fin k → Fin N) (sqrtO : K → K) (thr : K) (U : Fin N → Mat k d K)
     (T t0 : Fin N → Fin d → K) (C : Fin N → Fin d → Fin d → K)
     (hgs : ∀ i, ∀ h ∈ hlleH sqrtO thr (U i), (∑ a, h.get a = 0) ∧ ∀ c, ∑ a, h.get a * U i a c = 0)
@@ -328,6 +328,41 @@ example :
   ring
 
 end HlleMat
+
+/-! ## 3c. the modified Gram–Schmidt sweep of `hessian_weight_matrix`, as written -/
+
+section GramSchmidt
+variable {K : Type} [Field K] {k : Nat}
+
+/-- one step (`col_i -= (col_i·col_j) col_j` for every finished column in order, then `col_i *= 1/norm`) produces a
+    column orthogonal to every element of an orthonormal `done` — for ANY `sqrtO` -/
+theorem gsOne_orthogonal (sqrtO : K → K) (done : List (DVec k K)) (c : DVec k K) (ho : Orthonormal done) :
+    ∀ q ∈ done, ddot (gsOne sqrtO done c) q = 0 :=
+  gsOne_orthogonal' sqrtO done c ho
+
+example : Orthonormal (K := ℚ) (k := 4)
+    [DVec.ofFn ![1 / 2, 1 / 2, 1 / 2, 1 / 2], DVec.ofFn ![1 / 2, -1 / 2, 1 / 2, -1 / 2]] := by
+  unfold Orthonormal
+  decide +kernel
+
+/-- **the whole sweep**: if `sqrtO` is exact on the squared norms that occur and no remainder vanishes (`GsExact`),
+    the output of `gramSchmidt sqrtO [] cols` is orthonormal, has one column per input, and for every `m` its first `m`
+    columns span the first `m` inputs (dual form: orthogonal to the first `m` outputs ⇒ orthogonal to the first `m`
+    inputs).  With `cols = hlleYi0 U = [1 | U | products]` and `m = 1 + d` this is the orthogonality half of the
+    contract `hgs` of `hlle_const_null` for the columns before `colsumNorm`. -/
+theorem gramSchmidt_orthogonal (sqrtO : K → K) (cols : List (DVec k K)) (hE : GsExact sqrtO [] cols) :
+    Orthonormal (gramSchmidt sqrtO [] cols) ∧ (gramSchmidt sqrtO [] cols).length = cols.length ∧
+    ∀ m p, (∀ q ∈ (gramSchmidt sqrtO [] cols).take m, ddot q p = 0) → ∀ c ∈ cols.take m, ddot c p = 0 :=
+  gramSchmidt_spec sqrtO cols hE
+
+/-- non-vacuity: the ℚ instance of the `hgs` example above (`U = (1,−1,7,−7)ᵀ`, norms 2, 10, 48) is exact and
+    non-degenerate -/
+example : GsExact (K := ℚ) (k := 4)
+    (fun x => if x = 4 then 2 else if x = 100 then 10 else if x = 2304 then 48 else 1) []
+    (hlleYi0 (d := 1) (fun a _ => ![1, -1, 7, -7] a)) := by
+  decide +kernel
+
+end GramSchmidt
 
 /-! ## Spectral part (eigensolver contract `GenEigSystem` as hypothesis; `Proofs/SpectralLocal.lean`) -/
 
